@@ -1164,7 +1164,7 @@ public:
 
     for (size_t ib = 0; ib < nrB; ib++)
     {
-      for (size_t jb = 0; jb < nrB; jb++)
+      for (size_t jb = 0; jb < ncB; jb++)
       {
         O(nrA + ib, ncA + jb) = B(ib, jb);
       }
